@@ -34,6 +34,8 @@ For `gen.check` the keys are attributed to the prefixes of the regenerated table
 `init ∘ export` is run on A's store with the extracted rules and compared with B's store (DIFF = the model does not describe what
 the code did), and the round-trip monitors are evaluated on the real stores:
   store_roundtrip:<module>.<prefix>     every key of the prefix answers alike on A and B   (`.params` = parameter subspace)
+  record_roundtrip:<module>.<prefix>    every record of the prefix that exists on BOTH sides has the same value (a carried record that
+                                        came back changed; separate name so that a finding about MISSING records cannot mask it)
   counter_roundtrip:<module>.<counter>.<rule>  an id counter / length key reads alike on A and B (rule = how InitGenesis
                                         restores it in the regenerated table: stored|maxId|lastId|count|zero|notRestored)
                                         (a `.` separates module and prefix: monitor names become file names in ./check)
@@ -129,6 +131,12 @@ def samePrefix (s t : Store) (p : String) : Bool :=
   let ks := ((s ++ t).filter fun e => e.pfx == p).map (·.key)
   ks.all fun k => norm (get s p k) == norm (get t p k)
 
+/-- keys of prefix `p` present on BOTH sides whose values differ (a carried record that came back changed — as opposed to a record
+that is missing or extra) -/
+def changedKeys (s t : Store) (p : String) : Nat :=
+  let ks := ((s.filter fun e => e.pfx == p).map (·.key)).filter fun k => (get t p k).isSome
+  (ks.filter fun k => norm (get s p k) != norm (get t p k)).length
+
 def countPfx (s : Store) (p : String) : Nat := (s.filter fun e => e.pfx == p).length
 
 def checkModule (st : St) (seq : String) (m : Module) (byte : String) : List String :=
@@ -147,7 +155,10 @@ def checkModule (st : St) (seq : String) (m : Module) (byte : String) : List Str
     let unspecified := (unspecifiedOf m).contains p || p.startsWith "?"
     let name := if st.mig then s!"migration_keeps:{m.name}.{p}"
       else if isCounterPfx m p then s!"counter_roundtrip:{m.name}.{counterTag m p}" else s!"store_roundtrip:{m.name}.{p}"
+    let changed := changedKeys a b p
     (if eq then [] else [s!"MON\t{seq}\t{name}\tkeysA={countPfx a p}\tkeysB={countPfx b p}"]) ++
+    (if changed == 0 || st.mig || isCounterPfx m p then [] else
+      [s!"MON\t{seq}\trecord_roundtrip:{m.name}.{p}\t{changed} records present on both sides came back with another value"]) ++
     (if modelEq || unspecified || st.mig then [] else
       [s!"DIFF\t{seq}\t{m.name}/{p}\tmodel init(export A) has {countPfx pred p} keys, re-imported store has {countPfx b p}, and they do not answer alike"]) ++
     (if p.startsWith "?" then [s!"DIFF\t{seq}\t{m.name}/{p}\tkey outside every declared prefix of the regenerated table"] else [])
